@@ -311,6 +311,9 @@ func (ex *Exec) unknownCall(st *State, name string, args []*Value, retT types.Ty
 	}
 	hv, facts := ex.havoc(retT, "ret."+name)
 	ex.assume(st, facts)
+	if ex.discover == nil {
+		ex.bumpFrontier(hv)
+	}
 	return hv
 }
 
@@ -402,6 +405,14 @@ func (ex *Exec) callSpec(fr *Frame, st *State, c *FuncContract, args []*Value, r
 			facts = ex.typeFacts(res)
 		} else {
 			res, facts = ex.havoc(retT, "r."+c.Name)
+			if c.Extern {
+				// a slice returned by a dependency is taken as a view at offset 0 of its backing object
+				for ci, comp := range ex.L.Of(retT).Comps {
+					if comp.Kind == kSliceOff && comp.Lift == 0 {
+						res.C[ci] = ex.zeroOfSort(comp.Sort)
+					}
+				}
+			}
 		}
 		ex.assume(st, facts)
 		if tt, ok := retT.(*types.Tuple); ok {
@@ -420,6 +431,9 @@ func (ex *Exec) callSpec(fr *Frame, st *State, c *FuncContract, args []*Value, r
 		} else if len(c.ResultNames) > 0 && c.ResultNames[0] != "" {
 			env.vars[c.ResultNames[0]] = res
 		}
+	}
+	if !c.Functional && ex.discover == nil {
+		ex.bumpFrontier(res)
 	}
 	env.st = st
 	env.old = pre
@@ -642,6 +656,22 @@ func (ex *Exec) applyModifies(env *Env, st *State, m ModTarget) {
 			ex.assume(st, facts)
 		case *types.Slice:
 			ex.havocSliceContents(st, v, u)
+		case *types.Map:
+			// forget the entries of this one map
+			key, mt := ex.mapRootKey(v)
+			n := len(ex.L.Of(mt.Elem()).Comps) + 1
+			for i := 0; i < n; i++ {
+				var cs Sort = SBool
+				if i > 0 {
+					cs = ex.L.Of(mt.Elem()).Comps[i-1].Sort
+				}
+				hs := ArrOf(cs)
+				h := ex.heapMap(st, key, i, hs)
+				if ex.discover != nil {
+					ex.discover.heap[fmt.Sprintf("%s|%d", key, i)] = heapKeyInfo{rootKey: key, comp: i, sort: hs}
+				}
+				ex.setHeapMap(st, key, i, ex.tb.Store(h, v.C[0], ex.tb.Fresh("modmap", hs)))
+			}
 		default:
 			panic("modifies: unsupported target " + v.T.String())
 		}
@@ -1142,7 +1172,7 @@ func (ex *Exec) setBackingArray(st *State, s *Value, comp int, arr *Term) {
 	rt := sliceRootType(s.T)
 	c := ex.L.Backing(backingElem(rt))[comp]
 	key := typeKey(rt)
-	if ex.discover != nil {
+	if ex.discover != nil && !ex.isFreshRef(s.C[0]) {
 		ex.discover.heap[fmt.Sprintf("%s|%d", key, comp)] = heapKeyInfo{rootKey: key, root: rt, comp: comp, sort: c.Sort}
 	}
 	h := ex.heapMap(st, key, comp, c.Sort)
